@@ -16,7 +16,7 @@ for name in names:
     meta = json.load(open(meta_p)) if os.path.exists(meta_p) else {"property": pid}
     t0 = time.time()
     out = subprocess.run(["/verif/seed_confirm.sh", d, "6"] + ([] if suite else ["nosuite"]), capture_output=True, text=True).stdout
-    wt = "/tmp/seedwt_" + name
+    wt = "/tmp/mut/" + pid
     m = re.search(r"demo clean=(\d+) patched=(\d+) import=(\S+)", out)
     if not m:
         meta["confirm"] = {"error": out[-500:]}
